@@ -238,3 +238,14 @@ Proof. repeat split. Qed.
 (* F25 (fixed in /repo by 20ac931): the v0 decoder entry point is the slice-bounded one *)
 Lemma decoder_entry_bounded : V0_DECODER_ENTRY = "from_slice"%string.
 Proof. reflexivity. Qed.
+
+(* the engine's own output always reaches the v0 decoder with exactly the encoded payload *)
+Theorem own_output_dispatch w : header_dispatch (serialize_wire w) = Ok (DDecode (encode (wire_tree w))).
+Proof.
+  unfold serialize_wire, header_dispatch.
+  assert (P : prefixb DAT_MAGIC (DAT_MAGIC ++ [V0_VERSION_BYTE] ++ encode (wire_tree w)) = true)
+    by (apply prefixb_iff; eexists; reflexivity).
+  rewrite P, nth_error_app_len. cbn [app nth_error].
+  change (N.eqb V0_VERSION_BYTE DISPATCH_V0_VERSION) with true. cbn iota.
+  rewrite (v0_payload_ok (encode (wire_tree w))). reflexivity.
+Qed.
